@@ -78,3 +78,13 @@ CHECKS['C12'] = dict(title='Dynamic bitset behaves like a growable reference bit
            'thorough': 'states with size <= 9 (1023 states), operands size <= 6'},
     assumptions=['growth is judged by content and by size >= position+1, never by the growth factor', 'reset() is judged by content (all bits clear), not by the resulting size',
                  'undefined behaviour without observable effect (1L << 63) is not reported'])
+
+CHECKS['C19'] = dict(title='Buffered reading and writing preserve the byte stream for every chunking', engine='xstate',
+    harness=['harness/c19_buffers.cpp'], flags='asan', lib=False, level='model_checking', deadline={'quick': 120, 'thorough': 1200}, hang_s=60, workers=8,
+    technique='explicit-state model checking of the real buffers: BFS over (start,end) / write position with every request length and EVERY source chunking as environment choice',
+    level_text='the state space of ReadBuffer<N>/WriteBuffer<N> closes for N=1..4 (quick) / 1..8 (thorough): every get/append length 0..N+2 from every state with every way the source can split its answer; result therefore holds for unbounded histories at these capacities',
+    level_note='canonical state drops the absolute stream offset (data-independence argument, cross-checked by expanding states reached at two offsets); trusts AddressSanitizer for the internal new[] buffer and exact-size caller buffers',
+    rule='state = (mDataStart,mDataEnd) resp. mWritePos of a real object rebuilt by history replay; transition = get(len)/append(len)/flush with one complete vector of source answers (1..max bytes per readData call); '
+         'oracle: returned/sunk bytes equal the position-coded stream, buffer content invariant, refusals of len>N, pass-through of oversized writes; non-trivial = distinct states',
+    bound={'quick': 'N = 1..4, lengths 0..N+1 (read) / 0..N+2 + flush (write), all chunkings', 'thorough': 'N = 1..8'},
+    assumptions=['the source always delivers at least 1 byte (a source that returns 0 forever makes get() spin by design)', 'byte values do not influence control flow (checked by the two-offset cross-check)'])
